@@ -1,8 +1,10 @@
 From Coq Require Import Extraction ExtrOcamlBasic.
-From CV Require Import Base.Num C15.GridModel C15.GridIOModel.
+From CV Require Import Base.Num C15.GridModel C15.GridIOModel C15.GridOpsModel.
 Extraction Language OCaml.
 Extraction "model.ml" mkNumOps nhalf wrap value_to_bin bin_to_value bins index_ok strides nxc ntot
   address incr wrap_index nbins_round mkHistCfg mkHistIn hist_step hist_init hist_run mkGeom remap_target remap
   mkGrid all_indices strip write_raw read_raw write_multicol read_multicol grid_from_multicol
   get_state_params write_restart read_block parse_params read_restart mkCv init_bounds dx_origin dx_delta zeros
-  write_raw_bin read_raw_bin normalise denormalise write_multicol_norm read_multicol_norm dec_round fmt_toks gather.
+  write_raw_bin read_raw_bin normalise denormalise write_multicol_norm read_multicol_norm dec_round fmt_toks gather
+  wrap_strict wrap_to_edge value_to_bin_bound bins_bound bin_fraction map_grid add_grid delta_grid multiply_constant add_constant
+  remove_small_values extra_bin_dim init_dim.
